@@ -27,7 +27,7 @@ import time
 from lib import simenv
 from lib.h_engine import Interner, digest
 
-TARGETS = ["theories/Model/DispatchExec.vo"]
+TARGETS = ["theories/Model/DispatchExec.vo", "theories/Model/DispatchReviewed.vo"]
 CLOCK = "global.time"
 CALLBACKS = ".previous_callbacks"
 
@@ -136,15 +136,47 @@ def extract_views(viewset):
     return out
 
 
-def comp_static(c, ent="tt", payload="tt") -> str:
+class StrTable:
+    """string literals are slow to parse in Coq 8.16 and the component data repeats every skill name many times: long strings
+    become one `Definition sK` each and are referred to by name; default keys are written `name ++ "." ++ method`"""
+
+    def __init__(self):
+        self.ids = {}
+
+    def ref(self, s: str) -> str:
+        if len(s.encode()) <= 8:
+            return cs(s)
+        if s not in self.ids:
+            self.ids[s] = "s%d" % len(self.ids)
+        return self.ids[s]
+
+    def key(self, k: str, name: str, method: str) -> str:
+        if k == name + "." + method:
+            return "(%s ++ %s)" % (self.ref(name), cs("." + method))
+        return self.ref(k)
+
+    def addr(self, a: str, names) -> str:
+        """".<name>.<entity>" -> "." ++ name ++ ".<entity>" when <name> is a known component name"""
+        if a.startswith("."):
+            for n in names:
+                if a.startswith("." + n + ".") and "." not in a[len(n) + 2:]:
+                    return "(%s ++ %s ++ %s)" % (cs("."), self.ref(n), cs(a[len(n) + 1:]))
+        return self.ref(a)
+
+    def definitions(self) -> str:
+        return "".join("Definition %s := %s.\n" % (v, cs(k)) for k, v in self.ids.items())
+
+
+def comp_static(c, tbl=None) -> str:
     """`U name keys defaults binds addons` of gen/DispatchData.v"""
+    tbl = tbl or StrTable()
     addons = []
     for a, when in zip(c["addons"], c["addon_whens"]):
         act = a["action"]
-        addons.append("(%s, %s, %s)" % (cs(when), cs(act["name"]), cs(act["method"])))
+        addons.append("(%s, %s, %s)" % (cs(when), tbl.ref(act["name"]), cs(act["method"])))
     return "U %s %s %s %s %s" % (
-        cs(c["name"]), cl("(%s, %s)" % (cs(k), cs(m)) for k, m in c["keys"]), cl(cs(n) for n in c["defaults"]),
-        cl("(%s, %s)" % (cs(k), cs(v)) for k, v in c["binds"]), cl(addons))
+        tbl.ref(c["name"]), cl("(%s, %s)" % (tbl.key(k, c["name"], m), cs(m)) for k, m in c["keys"]), cl(cs(n) for n in c["defaults"]),
+        cl("(%s, %s)" % (cs(k), tbl.ref(v)) for k, v in c["binds"]), cl(addons))
 
 
 def data_file(systems, inits=None) -> str:
@@ -153,19 +185,29 @@ def data_file(systems, inits=None) -> str:
          "   One list of components per (job, environment): name, mapping keys with method names in dict order,\n"
          "   default-state names, binds, addons (when, destination, method).  The theorems below are the generated\n"
          "   obligations that the C05/C06 dispatch theorems assume of the installed components. *)\n"
-         "From Coq Require Import List Bool String.\nFrom V.Model Require Import Dispatch DispatchViews.\nImport ListNotations.\nOpen Scope string_scope.\n"
+         "From Coq Require Import List Bool String.\nFrom V.Model Require Import Dispatch DispatchViews DispatchReviewed.\nImport ListNotations.\nOpen Scope string_scope.\n"
          "Definition U (name : string) (keys : list (string * string)) (defaults : list string) (binds : list (string * string))\n"
          "  (addons : list (string * string * string)) : component unit unit :=\n"
          "  {| c_name := name;\n     c_maps := map (fun km => (fst km, {| m_method := Some (snd km); m_red := None |})) keys;\n"
          "     c_default := map (fun n => (n, tt)) defaults; c_binds := binds;\n"
          "     c_addons := map (fun a => {| ad_when := fst (fst a);\n"
          "                                  ad_action := {| a_name := snd (fst a); a_method := snd a; a_pay := tt; a_addon := false |} |}) addons |}.\n")
+    tbl = StrTable()
+    parts = []                   # the definitions, emitted after the string table
     names = []
+    same_as = {}                 # system name -> an earlier system with textually the same component data (environments often differ in numbers only)
+    by_text = {}
     for label, comps in systems:
         n = "sys_" + re.sub(r"[^A-Za-z0-9]", "_", label)
         names.append(n)
-        t += "Definition %s : list (component unit unit) :=\n  [%s].\n" % (n, ";\n   ".join(comp_static(c) for c in comps))
-    t += "Definition all_systems : list (list (component unit unit)) := [%s].\n" % "; ".join(names)
+        body = ";\n   ".join(comp_static(c, tbl) for c in comps)
+        if body in by_text:
+            same_as[n] = by_text[body]
+            parts.append("Definition %s : list (component unit unit) := %s.\n" % (n, by_text[body]))
+        else:
+            by_text[body] = n
+            parts.append("Definition %s : list (component unit unit) :=\n  [%s].\n" % (n, body))
+    parts.append("Definition all_systems : list (list (component unit unit)) := [%s].\n" % "; ".join(names))
     obl = [("shipped_clock_unbound", "clock_unbound unit unit"), ("shipped_callbacks_unbound", "addr_unbound unit unit callbacks_addr"),
            ("shipped_addons_no_elapse", "addons_no_elapse unit unit"), ("shipped_names_distinct", "names_distinct unit unit"),
            ("shipped_keys_nonempty", "keys_nonempty unit unit")]
@@ -173,9 +215,36 @@ def data_file(systems, inits=None) -> str:
         # C10: every bind target is some component's own entity or a global property (model's initial store), and every bound
         # address is in the address set of the REAL freshly built store
         obl.append(("shipped_binds_closed", "binds_closed unit unit"))
-        t += "Definition all_initial_addresses : list (list string) :=\n  [%s].\n" % ";\n   ".join(cl(cs(a) for a in inits[l]) for l, _c in systems)
+        init_names, init_by_text = [], {}
+        for l, comps_ in systems:
+            cnames = sorted((c["name"] for c in comps_), key=len, reverse=True)
+            body = cl(tbl.addr(a, cnames) for a in inits[l])
+            if body not in init_by_text:
+                init_by_text[body] = "init_" + re.sub(r"[^A-Za-z0-9]", "_", l)
+                parts.append("Definition %s : list string := %s.\n" % (init_by_text[body], body))
+            init_names.append(init_by_text[body])
+        parts.append("Definition all_initial_addresses : list (list string) := [%s].\n" % "; ".join(init_names))
+    t += tbl.definitions() + "".join(parts)
+    parts = None
     for n, f in obl:
-        t += "Theorem %s : forallb (%s) all_systems = true.\nProof. vm_compute. reflexivity. Qed.\n" % (n, f)
+        t += "Theorem %s : forallb (%s) all_systems = true.\nProof. vm_cast_no_check (@eq_refl bool true). Qed.\n" % (n, f)
+    # C07 at router level.  Per system: the list of raw-action listeners itself, computed once ([] = the premise of
+    # C07_router_rejected_is_noop holds for that system); then: every one of them is inside the REVIEWED list (Model/DispatchReviewed.v)
+    rl_names = []
+    for (label, comps), sysname in zip(systems, names):
+        rl = raw_listeners(comps)
+        thm = "raw_listeners_of_" + sysname[4:]
+        rl_names.append(thm)
+        lit = cl("(%s, %s, %s)" % (cs(a), cs(b), cs(c)) for a, b, c in rl)
+        if sysname in same_as:
+            t += "Theorem %s : raw_action_listeners unit unit %s = %s.\nProof. exact raw_listeners_of_%s. Qed.\n" % (thm, sysname, lit, same_as[sysname][4:])
+        else:
+            t += ("Theorem %s : raw_action_listeners unit unit %s = %s.\nProof. vm_cast_no_check (@eq_refl (list (string * string * string)) %s). Qed.\n"
+                  % (thm, sysname, lit, lit))
+        obl.append((thm, None))
+    t += ("Theorem shipped_raw_listeners_reviewed : forallb (raw_listeners_reviewed unit unit reviewed_raw_listeners) all_systems = true.\n"
+          "Proof. unfold all_systems. cbn [forallb]. unfold raw_listeners_reviewed. rewrite %s. vm_compute. reflexivity. Qed.\n" % ", ".join(rl_names))
+    obl.append(("shipped_raw_listeners_reviewed", None))
     if inits is not None:
         t += ("Theorem shipped_bound_in_initial_store :\n  List.length all_initial_addresses = List.length all_systems /\\\n"
               "  forallb (fun p => bound_in unit unit (fst p) (snd p)) (combine all_initial_addresses all_systems) = true.\n"
@@ -189,9 +258,54 @@ def data_file(systems, inits=None) -> str:
     return t
 
 
+def find_key(keys, sig):
+    """Python mirror of _find_mapping_name over ordered keys (None = not found; an empty key never matches here)"""
+    if sig in keys:
+        return sig
+    for k in keys:
+        if k and k[0] == "$" and k.replace("$", "") in sig:
+            return k
+    return None
+
+
+def raw_listeners(comps):
+    """mirror of Model/DispatchReviewed.v raw_action_listeners: (listener, key, owner), in the same order"""
+    out = []
+    for o in comps:
+        for k, m in o["keys"]:
+            if k != o["name"] + "." + m:
+                continue
+            for l in comps:
+                if l["name"] == o["name"]:
+                    continue
+                key = find_key([x for x, _m in l["keys"]], k)
+                if key is not None:
+                    out.append((l["name"], key, o["name"]))
+    return out
+
+
+REVIEWED_RAW_LISTENERS = None
+
+
+def reviewed_raw_listeners():
+    """the reviewed (listener, key) pairs, read from the hand-written Coq file (single source)"""
+    global REVIEWED_RAW_LISTENERS
+    if REVIEWED_RAW_LISTENERS is None:
+        from lib.vf import VERIF
+        txt = (VERIF / "coq/theories/Model/DispatchReviewed.v").read_text()
+        body = txt[txt.index("Definition reviewed_raw_listeners"):]
+        REVIEWED_RAW_LISTENERS = set(re.findall(r'\("([^"]*)", "([^"]*)"\)', body))
+    return REVIEWED_RAW_LISTENERS
+
+
 def python_obligations(label, comps, init_addrs=None):
     """the same guards evaluated in Python, to name a concrete witness when the Coq obligation fails"""
     bad = []
+    for ln, key, owner in raw_listeners(comps):
+        if (ln, key) not in reviewed_raw_listeners():
+            bad.append({"what": "C07: a listening key is matched by the raw action signature of another component and is not in the reviewed list "
+                                "(a rejected use of the owner is then answered by the listener too)", "system": label, "component": ln,
+                        "listened_key": key, "owner": owner, "mechanism": "raw-action-listener"})
     if init_addrs is not None:
         own = {"global.dynamics", CLOCK} | {"%s.%s" % (c["local"], n) for c in comps for n in c["defaults"]}
         for c in comps:
@@ -882,6 +996,137 @@ def chunks(l, n):
         yield l[i:i + n]
 
 
+# ------------------------------------------------------------------------------------------- C07 at router level
+def _router_probe(engine, store, findings, stats, where, seen):
+    """on a copy of `store` with the pending callbacks flushed (one `*.elapse` of 0): for every skill whose OWN dispatcher rejects
+    `X.use` in that state, the ROUTER's answer must be exactly that reject and the store must stay as it is"""
+    from simaple.simulate.base import Checkpoint, TandemDispatcher, play
+    router = engine._router
+    s0 = Checkpoint.create(store).restore()
+    play(s0, {"name": "*", "method": "elapse", "payload": 0}, router)
+    base_ck = Checkpoint.create(s0)
+    tandems = [d for d in router._dispatchers if isinstance(d, TandemDispatcher)]
+    try:
+        invalid = [v.name for v in engine._viewset.show("validity", s0) if not v.valid]
+    except Exception:
+        invalid = []
+    by_name = {getattr(d._base_dispatcher, "_name", None): d for d in tandems}
+    for x in invalid:
+        d = by_name.get(x)
+        if d is None:
+            continue
+        action = {"name": x, "method": "use", "payload": None}
+        sig = x + ".use"
+        s1 = base_ck.restore()
+        try:
+            own = d._base_dispatcher(action, s1)
+        except Exception:
+            continue
+        if not any(e.get("tag") == "global.reject" for e in own):
+            continue
+        stats["rejected_uses_probed"] += 1
+        s2 = base_ck.restore()
+        before = s2.save()
+        before.pop(CALLBACKS, None)
+        events = router(action, s2)
+        after = s2.save()
+        after.pop(CALLBACKS, None)
+        changed = sorted(k for k in set(before) | set(after) if before.get(k) != after.get(k))
+        if [dict(e) for e in events] == [dict(e) for e in own] and not changed:
+            stats["rejected_uses_that_are_noops"] += 1
+            continue
+        listeners = []
+        for t in tandems:
+            b = t._base_dispatcher
+            if t is not d and b.includes(sig):
+                key = b._find_mapping_name(sig)
+                listeners.append((b, key))
+        extra = [(e["name"], e["method"], e.get("tag")) for e in events if dict(e) not in [dict(o) for o in own]]     # everything but the owner's reject
+        if not listeners:
+            mech = "addon-after-reject" if d._next_dispatchers else "other"
+            k = (x, mech, sig)
+            if k not in seen:
+                seen.add(k)
+                findings.append(dict(prop="C07", what="H-dispatch: a rejected player action is not a no-op at router level (%s): the router answers %s.use with %s"
+                                     % (mech, x, [(e["name"], e.get("tag")) for e in events]), component=x, reducer="use", mechanism=mech, listened_key=None,
+                                     rejected_action=sig, extra_events=extra, changed_addresses=changed, **where))
+        for b, key in listeners:
+            k = (b._name, key, sig)
+            if k in seen:
+                continue
+            seen.add(k)
+            red = b.reducer_mappings.get(key)
+            findings.append(dict(prop="C07", what="H-dispatch: a rejected player action is not a no-op at router level: %s.%s listens to the RAW action %s and "
+                                 "acted on the rejected %s" % (b._name, b.method_mappings.get(key), key, sig), component=b._name,
+                                 component_class=_cls_of(red) if red is not None else None, reducer=b.method_mappings.get(key),
+                                 mechanism="raw-action-listener", listened_key=key, rejected_action=sig, extra_events=extra,
+                                 changed_addresses=changed, **where))
+
+
+def search_router_rejected(rng, quick, budget_s=20.0):
+    """all jobs, random plans, NO pending callbacks: `X.use` rejected by its own dispatcher must be a no-op for the router"""
+    findings, stats, seen = [], collections.Counter(), set()
+    t0 = time.time()
+    jobs = list(simenv.JOBS)
+    for job in jobs:
+        for v in ([1] if quick else [0, 1, 2]):
+            if time.time() - t0 > budget_s:
+                stats["budget_exhausted"] += 1
+                return findings, dict(stats)
+            try:
+                # targeted: every owner of a raw-action listener, used once so that it is cooling down
+                e = simenv.make_engine(job, v)
+                comps = [d for k, d in extract(e._router, e._history.current_store()) if k == "comp"]
+                for owner in sorted({o for _l, _k, o in raw_listeners(comps)}):
+                    e = simenv.make_engine(job, v)
+                    lines = ['CAST "%s"' % owner, "ELAPSE 10"]
+                    for c in simenv.parse_commands(lines):
+                        e.exec(c)
+                    stats["targeted_states_probed"] += 1
+                    _router_probe(e, e._history.current_store(), findings, stats, {"system": "%s/%d" % (job, v), "plan": lines}, seen)
+                e = simenv.make_engine(job, v)
+                lines = simenv.random_plan(rng, job, v, 9 if quick else 16, console=False)
+                cmds = [c for c in simenv.parse_commands(lines) if getattr(c, "command_type", None) != "console"]
+                probe_at = set([len(cmds) - 1] + rng.sample(range(len(cmds)), min(2 if quick else 5, len(cmds))))
+                for i, c in enumerate(cmds):
+                    e.exec(c)
+                    if i in probe_at:
+                        stats["states_probed"] += 1
+                        _router_probe(e, e._history.current_store(), findings, stats,
+                                      {"system": "%s/%d" % (job, v), "plan": lines[:i + 1]}, seen)
+            except Exception as ex:
+                stats["plans_that_raised"] += 1
+    return findings, dict(stats)
+
+
+def replay_raw_listener_witness():
+    """the recorded witness of C07-raw-action-listeners -> (still_failing, detail)"""
+    plan = ['CAST "미스트 이럽션"', 'CAST "포이즌 노바"', 'CAST "플레임 스윕 VI"', 'CAST "플레임 스윕 VI"', 'CAST "플레임 스윕 VI"', "ELAPSE 10",
+            'USE "미스트 이럽션"']
+    last = None
+    for v in (1, 2, 0):
+        try:
+            e = simenv.make_engine("archmagefb", v)
+            names = simenv.skill_names("archmagefb", v)
+            if "플레임 스윕 VI" not in names:
+                continue
+            # with hexa levels only the VI form of the owner is installed (the listeners carry both keys)
+            owner = "미스트 이럽션" if "미스트 이럽션" in names else "미스트 이럽션 VI"
+            plan = [l.replace('"미스트 이럽션"', '"%s"' % owner) for l in plan]
+            log = None
+            for c in simenv.parse_commands(plan):
+                log = e.exec(c)
+            evs = log.playlogs[0].events
+            own_rej = any(x["name"] == owner and x["tag"] == "global.reject" for x in evs)
+            others = [(x["name"], x["method"], x["tag"]) for x in evs
+                      if x["name"] in ("포이즌 노바", "플레임 스윕 VI") and x["tag"] == "global.damage"]
+            detail = "archmagefb/%d: USE %s while cooling down -> %s" % (v, owner, [(x["name"], x["tag"]) for x in evs][:8])
+            return (own_rej and bool(others)), detail
+        except Exception as ex:
+            last = repr(ex)
+    return False, "the witness plan could not be run: %s" % last
+
+
 # ------------------------------------------------------------------------------------------- the run
 def step1(ctx, prop, cov, findings):
     """extraction from freshly built engines of all jobs, gen/DispatchData.v, the generated obligations; the Python mirror of the
@@ -1470,6 +1715,11 @@ def run(ctx, prop: str):
                     if CLOCK in call["written"]:
                         findings.append(dict(prop="C06", what="H-dispatch: a component dispatcher wrote the clock address", component=call["comp"], reducer=call["action"]["method"],
                                              system=r.label, action=call["action"]))
+    if prop == "C07":
+        rfind, rstat = search_router_rejected(rng, quick, 18.0 if quick else 240.0)
+        findings += rfind
+        cov["router_rejected_search"] = dict(rstat, findings=len(rfind),
+                                             by_listener=dict(collections.Counter("%s <- %s" % (f["component"], f.get("listened_key")) for f in rfind)))
     mark("statements on the implementation")
     cov["impl_search"] = dict(istat, counterexamples=len(findings))
     cov["wall_s"] = round(time.time() - t_start, 1)
